@@ -601,6 +601,73 @@ pub fn c01_sched(thorough: bool) -> Vec<Unit> {
     v
 }
 
+/// First deliveries on a StreamingPull follow publish order whatever the stream's initial request says about
+/// max_outstanding_bytes / max_outstanding_messages, and whatever the sizes of the messages are.
+pub fn stream_budget_order_unit() -> Unit {
+    let f: ScenFn = scen!(|cx| {
+        let a = cx.api.clone();
+        must!(cx, "setup:create-topic", { let a = a.clone(); async move { a.create_topic(T0).await } });
+        must!(cx, "setup:create-sub", { let a = a.clone(); async move { a.create_sub(S0, T0, 10, None).await } });
+        let patterns: [&[usize]; 5] = [&[60, 60, 10], &[10, 60, 60], &[100, 1, 100, 1], &[5, 5, 5, 5, 5], &[200, 10, 10, 200, 10]];
+        let sizes = patterns[cx.choose("payload-sizes", patterns.len())];
+        let budgets = [0i64, 1, 50, 64, 100, 130, 1_000];
+        let bytes = budgets[cx.choose("max-outstanding-bytes", budgets.len())];
+        let msgs_limit = [0i64, 1, 2, 1000][cx.choose("max-outstanding-messages", 4)];
+        let per_request = cx.choose("published-in-one-request", 2) == 1;
+        let payloads: Vec<Msg> = sizes.iter().enumerate().map(|(i, n)| (vec![b'a' + i as u8; *n], vec![])).collect();
+        let mut ids: Vec<String> = vec![];
+        if per_request {
+            ids = must!(cx, "setup:publish", { let (a, p) = (a.clone(), payloads.clone()); async move { a.publish(T0, p).await } });
+        } else {
+            for p in payloads.clone() {
+                ids.extend(must!(cx, "setup:publish", { let a = a.clone(); async move { a.publish(T0, vec![p]).await } }));
+            }
+        }
+        let got: std::sync::Arc<std::sync::Mutex<Vec<String>>> = Default::default();
+        let (g2, a2) = (got.clone(), a.clone());
+        let h = cx.spawn("client:00-stream", async move {
+            let mut first = first_stream_req(S0, msgs_limit);
+            first.max_outstanding_bytes = bytes;
+            let (tx, r) = a2.streaming_pull(first).await;
+            let _keep = tx;
+            if let Ok(mut st) = r {
+                while let Ok(Some(m)) = st.message().await {
+                    let mut acks = vec![];
+                    for r in &m.received_messages {
+                        let rm = to_rm(r);
+                        g2.lock().unwrap().push(rm.msg_id.clone());
+                        acks.push(rm.ack_id);
+                    }
+                    // acknowledge as we go, so that a stream that respects its budget can go on
+                    let _ = a2.ack(S0, acks).await;
+                }
+            }
+        });
+        tryv!(cx.quiesce().await);
+        tryv!(cx.advance_ms(500).await);
+        let got = got.lock().unwrap().clone();
+        h.abort();
+        tryv!(cx.quiesce().await);
+        let case = format!("sizes={:?} max_outstanding_bytes={} max_outstanding_messages={} one-request={}", sizes, bytes, msgs_limit, per_request);
+        // first deliveries: the order in which message ids appear for the first time
+        let mut firsts: Vec<String> = vec![];
+        for id in &got {
+            if !firsts.contains(id) {
+                firsts.push(id.clone());
+            }
+        }
+        let expected: Vec<String> = ids.iter().filter(|i| firsts.contains(i)).cloned().collect();
+        if firsts != expected {
+            return ScenarioOut::viol("stream-budget/first-deliveries-out-of-publish-order", format!("{}: published {:?}, first deliveries on the stream {:?}", case, ids, firsts));
+        }
+        if firsts.len() != ids.len() {
+            return ScenarioOut::viol("stream-budget/not-all-delivered", format!("{}: the stream acknowledged everything it got, yet only {} of {} messages arrived within 500 ms", case, firsts.len(), ids.len()));
+        }
+        ScenarioOut::ok(format!("delivered={}", firsts.len()))
+    });
+    explore_unit("input/stream-budget-order", "messages of uneven sizes (5 patterns) published in one request or one by one; a StreamingPull opened with max_outstanding_bytes in {0,1,50,64,100,130,1000} and max_outstanding_messages in {0,1,2,1000} that acknowledges as it receives: first deliveries follow publish order and everything arrives", Bounds::new(0), ExecCfg::default(), f)
+}
+
 pub fn c08_sched(thorough: bool) -> Vec<Unit> {
     use COp::*;
     let d = if thorough { 4 } else { 3 };
